@@ -260,9 +260,13 @@ Proof.
       rewrite (proj2 (mem_false L leqb leqb_spec l c) Ic). cbn [orb fst snd].
       destruct pending as [|[l' mode] rest]; [exfalso; apply Hp; [cbn; discriminate | reflexivity]|].
       rewrite Stale.
-      exists (la_touch l la). split; [reflexivity|].
-      split; [exact Ck|]. split; [exact Hc|]. split; [apply (la_touch_NoDup L leqb leqb_spec), N|].
-      rewrite (filter_la_touch_false L leqb leqb_spec _ l la Ild). exact Fl.
+      destruct lru_update_after_read.
+      * (* the LRU position is only updated after a successful read: nothing changed *)
+        exists la. split; [reflexivity|]. split; [exact Ck|]. split; [exact Hc|]. split; [exact N | exact Fl].
+      * (* as found: the label is already in the dict when next(store_reader) raises *)
+        exists (la_touch l la). split; [reflexivity|].
+        split; [exact Ck|]. split; [exact Hc|]. split; [apply (la_touch_NoDup L leqb leqb_spec), N|].
+        rewrite (filter_la_touch_false L leqb leqb_spec _ l la Ild). exact Fl.
 Qed.
 
 Lemma run_loop_stale_none : m_coherent st = false ->
@@ -300,7 +304,7 @@ Proof.
       assert (Ic : ~ In l c) by (intro I; apply Hc in I; congruence).
       rewrite (proj2 (mem_false L leqb leqb_spec l c) Ic). cbn [orb fst snd].
       destruct pending as [|[l' mode] rest]; [exfalso; apply Hp; [cbn; discriminate | reflexivity]|].
-      rewrite Stale. auto.
+      rewrite Stale. destruct lru_update_after_read; auto.
 Qed.
 
 End LoopStale.
